@@ -135,7 +135,7 @@ def gen_cases(rng, tier):
         cases.append({"part": "D", "N": rng.choice([4, 6, 8]), "len": rng.choice([2, 3]), "T": ocpgen.rnd(rng, 0.8, 2.5, 2),
                       "target": ocpgen.rnd(rng, 0.3, 1.5, 2), "umax": ocpgen.rnd(rng, 2.0, 6.0, 2),
                       "grid": rng.choice([{"cls": "Uniform"}, {"cls": "Geometric", "growth": 2.0}]),
-                      "seed": rng.getrandbits(32)})
+                      "integral": i % 3 == 2 and True, "seed": rng.getrandbits(32)})
     return cases
 
 
@@ -607,7 +607,12 @@ def run_D(case):
                 ocp.subject_to(ocp.at_t0(s_) == 0)
             ocp.subject_to(ocp.at_tf(xs[0]) == case["target"])
             ocp.subject_to(-case["umax"] <= (u <= case["umax"]))
-            ocp.add_objective(ocp.sum(u ** 2) + 0.1 * ocp.sum(xs[0] ** 2, include_last=True))
+            if case.get("integral"):
+                # the same running cost written as an integral (u is piecewise constant: both are T/N-weighted sums on a
+                # uniform grid; the integral is what a user of the shooting methods writes)
+                ocp.add_objective(ocp.integral(u ** 2) + 0.1 * ocp.sum(xs[0] ** 2, include_last=True))
+            else:
+                ocp.add_objective(ocp.sum(u ** 2) + 0.1 * ocp.sum(xs[0] ** 2, include_last=True))
             if name == "spline":
                 ocp.method(rockit.SplineMethod(N=case["N"], grid=build.make_grid(case["grid"])))
             else:
@@ -618,6 +623,20 @@ def run_D(case):
             _, xv = sol.sample(xs[0], grid="control")
             _, uv = sol.sample(u, grid="control")
             sols[name] = (float(sol.value(ocp.objective)), np.array(xv).reshape(-1), np.array(uv).reshape(-1)[:-1])
+            if case.get("integral") and name == "spline":
+                # mechanism check: the integral term of the SplineMethod objective against a quadrature of the sampled u
+                tt_, uu_ = sol.sample(u, grid="control")
+                tt_, uu_ = np.array(tt_).reshape(-1), np.array(uu_).reshape(-1)
+                quad_ = float(np.sum(np.diff(tt_) * uu_[:-1] ** 2))
+                term_ = float(sol.value(ocp.integral(u ** 2))) if False else sols[name][0] - 0.1 * float(np.sum(sols[name][1] ** 2))
+                res["evals"] += 1
+                if quad_ > 1e-6 and abs(term_) < 1e-9 * (1 + quad_):
+                    res["violations"].append({
+                        "kind": "integral-zero", "mech": "C17|D|integral-term-silently-zero-under-SplineMethod",
+                        "detail": "SplineMethod: the objective term ocp.integral(u**2) evaluates to %.3g at the returned solution "
+                                  "while the integral of the sampled u**2 is %.6g (no error raised, the solver minimises the "
+                                  "remaining terms only)" % (term_, quad_)})
+                    return res
         except Exception as e:  # noqa
             res["status"] = "inconclusive"
             res["note"] = "%s solve failed: %r" % (name, e)
